@@ -117,4 +117,61 @@ def nist_special_dh_targets(c, rnd):
             if c.lift_x(x) is not None:
                 out.append(("x_with_%d_leading_zero_bytes" % k, x))
                 break
+    # x between the group order and the field prime (a "canonical" check against the wrong modulus refuses it)
+    for _ in range(400):
+        x = rnd.randrange(c.n, c.p)
+        if c.lift_x(x) is not None:
+            out.append(("x_between_n_and_p", x))
+            break
+    for x in (c.p - 1, c.p - 2, c.p - 3, c.n, c.n + 1):
+        if c.n <= x < c.p and c.lift_x(x) is not None:
+            out.append(("x_edge_between_n_and_p", x))
     return out
+
+
+def gcm_plaintext_for_tag(aead_id, key, nonce, aad, target_tag):
+    """A 16-byte plaintext whose AES-GCM tag under (key, nonce, aad) is `target_tag` (e.g. all zero), or None.
+    The tag is an affine function over GF(2) of the plaintext bits (for a fixed length), so 129 evaluations of the
+    reference AEAD and a 128x128 elimination give the preimage.  Genuine messages with such tags occur with
+    probability 2^-128; an implementation that treats an all-zero tag as 'unset' rejects them."""
+    from ref import aead as refaead
+
+    def tag_of(pt):
+        return int.from_bytes(refaead.seal(aead_id, key, nonce, aad, pt)[-16:], "big")
+
+    t0 = tag_of(bytes(16))
+    want = t0 ^ int.from_bytes(target_tag, "big")
+    cols = []
+    for i in range(128):
+        e = (1 << (127 - i)).to_bytes(16, "big")
+        cols.append(tag_of(e) ^ t0)
+    # solve sum_i x_i * cols[i] == want over GF(2): eliminate on (column vector, combination mask) pairs
+    basis = {}  # leading bit -> (vector, mask)
+    for i, v in enumerate(cols):
+        m = 1 << i
+        while v:
+            hb = v.bit_length() - 1
+            if hb in basis:
+                bv, bm = basis[hb]
+                v ^= bv
+                m ^= bm
+            else:
+                basis[hb] = (v, m)
+                break
+    x = 0
+    v = want
+    while v:
+        hb = v.bit_length() - 1
+        if hb not in basis:
+            return None
+        bv, bm = basis[hb]
+        v ^= bv
+        x ^= bm
+    pt = 0
+    for i in range(128):
+        if (x >> i) & 1:
+            pt |= 1 << (127 - i)
+    pt = pt.to_bytes(16, "big")
+    if refaead.seal(aead_id, key, nonce, aad, pt)[-16:] != target_tag:
+        return None
+    return pt
